@@ -29,7 +29,7 @@ const CALLERS: [usize; 4] = [2, 4, 8, 16];
 fn plan(tier: Tier, _seed: u64) -> Plan {
 	Plan {
 		// kind x callers x mode(threads|tasks) x repetitions
-		cases: (KINDS.len() * CALLERS.len() * 2) as u64 * tier.pick(1, 6),
+		cases: (KINDS.len() * CALLERS.len() * 2) as u64 * tier.pick(2, 6),
 		shards: 4,
 		case_timeout_s: 600,
 		level: "exploration",
@@ -115,6 +115,8 @@ fn describe(r: &Res) -> String {
 	}
 }
 
+static SCARCE: std::sync::atomic::AtomicBool = std::sync::atomic::AtomicBool::new(false);
+
 fn run_case(cx: &CaseCtx, rep: &mut Report) {
 	let mut rng = cx.rng();
 	let combos = (KINDS.len() * CALLERS.len() * 2) as u64;
@@ -130,6 +132,9 @@ fn run_case(cx: &CaseCtx, rep: &mut Report) {
 	let dir = cx.fresh_dir("c13");
 
 	let mut big = false;
+	// second half of the plan: the versatiles cases run on a file with one damaged block
+	let damaged = kind == "versatiles" && (cx.case / combos) % 2 == 1;
+	let mut fresh_path: Option<std::path::PathBuf> = None;
 	// build the target and the plan
 	let built = guard::catch(|| -> Result<(Target, Vec<Vec<Call>>), String> {
 		if kind == "file" {
@@ -166,6 +171,22 @@ fn run_case(cx: &CaseCtx, rep: &mut Report) {
 			let path = dir.join(format!("c.{kind}"));
 			let mut src = MemSource::new(&ts);
 			guard::block_on(write_to_filename(&mut src, path.to_str().unwrap())).map_err(|e| format!("write: {e}"))?;
+			if damaged {
+				// the tile index of one block is overwritten with noise: every lookup in that block has to fail, whenever
+				// and by whomever it is issued; the other blocks are untouched
+				let mut bytes = std::fs::read(&path).map_err(|e| e.to_string())?;
+				let h = crate::codec::ivt::parse_header(&bytes)?;
+				let raw = crate::comp::unbrotli(&bytes[h.blocks.0 as usize..(h.blocks.0 + h.blocks.1) as usize])?;
+				let recs = crate::codec::ivt::parse_block_index(&raw)?;
+				let b = &recs[rng.usize_below(recs.len())];
+				let (a, e) = ((b.offset + b.blobs_len) as usize, (b.offset + b.blobs_len) as usize + b.index_len as usize);
+				let e = e.min(bytes.len());
+				for x in bytes[a..e].iter_mut() {
+					*x = 0xA5;
+				}
+				std::fs::write(&path, bytes).map_err(|e| e.to_string())?;
+			}
+			fresh_path = Some(path.clone());
 			let reader = guard::block_on(get_reader(path.to_str().unwrap())).map_err(|e| format!("open: {e}"))?;
 			let keys: Vec<gen::Key> = ts.tiles.keys().cloned().collect();
 			let plans = (0..callers)
@@ -199,8 +220,33 @@ fn run_case(cx: &CaseCtx, rep: &mut Report) {
 		}
 	};
 
-	// expected: each call alone
-	let expected: Vec<Vec<Res>> = guard::block_on(async {
+	// expected: each call alone. On the damaged file "alone" means on a reader that has not been used before, so
+	// that nothing a previous call left behind (a cached index, a cached failure) can colour the reference.
+	let expected: Vec<Vec<Res>> = if damaged {
+		let path = fresh_path.clone().unwrap();
+		let mut memo: std::collections::HashMap<String, Res> = std::collections::HashMap::new();
+		let mut all = vec![];
+		for p in plans.iter() {
+			let mut v = vec![];
+			for c in p.iter() {
+				let key = format!("{c:?}");
+				if !memo.contains_key(&key) {
+					let r = guard::block_on(async {
+						match get_reader(path.to_str().unwrap()).await {
+							Ok(fresh) => Target::Tiles(fresh).call(c).await,
+							Err(_) => Res::Error,
+						}
+					});
+					memo.insert(key.clone(), r);
+				}
+				v.push(memo[&key].clone());
+			}
+			all.push(v);
+		}
+		rep.count("cases_on_a_file_with_a_damaged_block", 1);
+		rep.count("calls_that_must_fail_on_the_damaged_block", all.iter().flatten().filter(|r| **r == Res::Error).count() as u64);
+		all
+	} else { guard::block_on(async {
 		let mut all = vec![];
 		for p in &plans {
 			let mut v = vec![];
@@ -210,7 +256,7 @@ fn run_case(cx: &CaseCtx, rep: &mut Report) {
 			all.push(v);
 		}
 		all
-	});
+	}) };
 	if kind == "file" {
 		// sanity of the oracle itself: solo reads return the bytes of their own offset
 		for (p, e) in plans.iter().zip(&expected) {
@@ -258,13 +304,21 @@ fn run_case(cx: &CaseCtx, rep: &mut Report) {
 				all
 			})
 		} else {
-			let barrier = Arc::new(Barrier::new(callers));
+			// tar cases: while the calls run, the process has next to no free file descriptors left (a server with many
+			// mounted archives). A reader that holds its file open does not care; the limit is lowered only after every
+			// caller thread has built its runtime, and restored when they are done.
+			let scarce = kind == "tar";
+			let barrier = Arc::new(Barrier::new(callers + scarce as usize));
+			let start = Arc::new(Barrier::new(callers + scarce as usize));
 			let mut handles = vec![];
 			for t in 0..callers {
-				let (target, plans, inflight, max_inflight, barrier) = (target.clone(), plans.clone(), inflight.clone(), max_inflight.clone(), barrier.clone());
+				let (target, plans, inflight, max_inflight, barrier, start) = (target.clone(), plans.clone(), inflight.clone(), max_inflight.clone(), barrier.clone(), start.clone());
 				handles.push(std::thread::spawn(move || {
 					let rt = tokio::runtime::Builder::new_current_thread().enable_all().build().unwrap();
 					barrier.wait();
+					if scarce {
+						start.wait();
+					}
 					rt.block_on(async {
 						let mut out = Vec::with_capacity(plans[t].len());
 						for c in &plans[t] {
@@ -278,9 +332,31 @@ fn run_case(cx: &CaseCtx, rep: &mut Report) {
 					})
 				}));
 			}
-			handles.into_iter().map(|h| h.join().unwrap_or_default()).collect()
+			let mut old_limit: Option<libc::rlimit> = None;
+			if scarce {
+				barrier.wait();
+				let used = std::fs::read_dir("/proc/self/fd").map(|d| d.count()).unwrap_or(64) as u64;
+				let mut lim = libc::rlimit { rlim_cur: 0, rlim_max: 0 };
+				// SAFETY: plain libc calls on a local struct
+				if unsafe { libc::getrlimit(libc::RLIMIT_NOFILE, &mut lim) } == 0 {
+					old_limit = Some(lim);
+					let low = libc::rlimit { rlim_cur: (used + 2).min(lim.rlim_cur), rlim_max: lim.rlim_max };
+					if unsafe { libc::setrlimit(libc::RLIMIT_NOFILE, &low) } == 0 {
+						SCARCE.store(true, Ordering::SeqCst);
+					}
+				}
+				start.wait();
+			}
+			let out: Vec<Vec<Res>> = handles.into_iter().map(|h| h.join().unwrap_or_default()).collect();
+			if let Some(lim) = old_limit {
+				unsafe { libc::setrlimit(libc::RLIMIT_NOFILE, &lim) };
+			}
+			out
 		}
 	});
+	if SCARCE.swap(false, Ordering::SeqCst) {
+		rep.count("cases_run_with_scarce_file_descriptors", 1);
+	}
 
 	let mode = if tasks_mode { "tasks" } else { "threads" };
 	match results {
